@@ -27,7 +27,10 @@ RULE = ("case = one word over rows (key incl. null, value null/non-null, mask bi
 ASSUMPTIONS = [
     "tasks run to completion one at a time in the chosen order (completion order = execution "
     "order); interleavings inside numba kernels are not modelled (tasks write only arrays they "
-    "allocate - discharged by C19)",
+    "allocate - C19 checks the caller's inputs; the 'footprint' sub-spaces compare, around every task "
+    "body, all array memory reachable from the arguments/closures of every task of the pool, from "
+    "finished tasks' results and from the library's module-level state, and report two tasks changing "
+    "the same element or a task changing another task's result)",
     "n <= 3-4 rows (quick) / 5 (thorough); <= 3 Arrow chunks; T <= 4; fan-out <= 4; D <= 1 (quick) "
     "/ 2 (thorough)",
     "the 1,000,000-row switch-over is pulled down through core.THRESHOLD_FOR_CHUNKED_FACTORIZE, "
@@ -62,6 +65,12 @@ ORDER_SENSITIVE = {"first", "last", "first_2col", "last_2col_t", "sum_2col", "mi
                    "apply_sum_2col", "cumsum_2col", "median"}
 
 
+# one operation per distinct kind of task body (quick footprint sub-space; thorough runs them all)
+FP_OPS = {"size", "sum", "mean", "first", "min", "var", "sum_t", "last_2col_t", "sum_2col",
+          "sum@slice1", "cumsum", "rolling_sum", "ema_alpha", "ema_2col", "median", "apply_sum_2col",
+          "head2", "groups", "sum@nosort"}
+
+
 def op_fn(name):
     if name in LOCAL:
         return LOCAL[name][1]
@@ -72,9 +81,10 @@ class StrategySpace(Subspace):
     shard = 8
 
     def __init__(self, name, G, lo, hi, mode="full", with_mask=True, bound=1, seed=0, vdtype="f8",
-                 keykind="float", thorough=False):
+                 keykind="float", thorough=False, footprint=False):
         self.name = name
         self.thorough = thorough
+        self.footprint = footprint
         self.mode, self.bound, self.seed = mode, bound, seed
         self.vdtype, self.keykind = vdtype, keykind
         alpha = row_alphabet(G, 1, [gbh.key_can_null(keykind)], C.can_null(vdtype), with_mask)
@@ -90,7 +100,7 @@ class StrategySpace(Subspace):
     def case(self, i):
         return dict(w=[[list(r[0])] + list(r[1:]) for r in self.ws.at(i)], mode=self.mode,
                     bound=self.bound, seed=self.seed, vdtype=self.vdtype, keykind=self.keykind,
-                    thorough=self.thorough)
+                    thorough=self.thorough, footprint=self.footprint)
 
     # ---------------------------------------------------------------------------------
     def configs(self, n, mode, thorough=False):
@@ -157,6 +167,7 @@ class StrategySpace(Subspace):
         vkind = d.V.dtype.kind
         baseline = {}
         states = 0
+        fp_tasks = 0
 
         def chunked(arr, comp):
             cuts = np.cumsum(comp)[:-1]
@@ -170,7 +181,19 @@ class StrategySpace(Subspace):
                 return gbh.call(lambda: op_fn(name[:-7])(GroupBy(keyarg, sort=False), ctx))
             return gbh.call(lambda: op_fn(name)(GroupBy(keyarg), ctx))
 
-        for label, cfg, opnames, devops in self.configs(n, case["mode"], case.get("thorough", False)):
+        cfgs = self.configs(n, case["mode"], case.get("thorough", False))
+        if case.get("footprint") and not case.get("thorough"):
+            # quick footprint pass: one configuration per kind of pool (the thorough tier runs all)
+            def keep(cfg):
+                if "kchunks" in cfg and "vchunks" in cfg:
+                    return False
+                if "kchunks" in cfg:
+                    return len(cfg["kchunks"]) == min(3, n) and 0 not in cfg["kchunks"]
+                if "vchunks" in cfg:
+                    return len(cfg["vchunks"]) == 2 and 0 not in cfg["vchunks"] and cfg["vchunks"][0] == 1
+                return cfg.get("T") == 3 or cfg.get("fanout") == 3
+            cfgs = [c for c in cfgs if keep(c[1])]
+        for label, cfg, opnames, devops in cfgs:
             keyarg = d.keyarg
             ctx = ctx0
             if cfg.get("kchunks"):
@@ -180,6 +203,8 @@ class StrategySpace(Subspace):
                     continue
                 ctx = O.Ctx(V=chunked(d.V, cfg["vchunks"]), M=ctx0.M,
                             V2=chunked(d.V2, cfg["vchunks"]), T=ctx0.T, VS=ctx0.VS, n=n)
+            if case.get("footprint") and not case.get("thorough"):
+                opnames = [o for o in opnames if o in FP_OPS]
             for name in opnames:
                 bname = name[:-7] if name.endswith("@nosort") else name
                 if bname in O.OPS and vkind not in O.OPS[bname].vkinds:
@@ -208,11 +233,21 @@ class StrategySpace(Subspace):
                     return k
 
                 b = bound if name in devops else 0
+                fpr = bool(case.get("footprint"))
+                if fpr:
+                    sched.FOOTPRINT.reset(True)
                 try:
                     ex = sched.explore(run_only_key, b, max_schedules=400)
                 except sched.ReplayDivergence as e:
                     res.fail("determinism", f"{name} [{label}]: replay divergence {e}")
                     continue
+                finally:
+                    if fpr:
+                        sched.FOOTPRINT.enabled = False
+                if fpr:
+                    fp_tasks += sched.FOOTPRINT.tasks_checked
+                    for msg in sorted(set(sched.FOOTPRINT.conflicts))[:2]:
+                        res.fail("independence", f"{name} [{label}]: {msg}")
                 res.execs += ex["schedules"]
                 states += ex["schedules"]
                 if len(ex["outcomes"]) > 1:
@@ -240,6 +275,8 @@ class StrategySpace(Subspace):
                             diff = "normal forms differ"
                     res.fail("strategy", f"{name} [{label}]: {diff} (vs T=1/whole/contiguous/FIFO)")
         res.states = max(1, states)
+        if case.get("footprint"):
+            res.extra = {"footprint_task_bodies_checked": fp_tasks}
         sched.set_schedule(sched.Schedule())
         seams.reset()
         return res
@@ -345,7 +382,15 @@ def subspaces(tier, seed):
         for vd in ("i4", "u1", "b"):
             sp.append(S(f"threads-{vd}-A0_2-n2to3", 2, 2, 3, mode="threads", vdtype=vd, with_mask=False,
                         bound=0, seed=seed))
+        sp.append(S("footprint-A2-n3", 2, 3, 3, mode="full", bound=0, seed=seed, footprint=True))
+        sp.append(S("footprint-u1-A0_2-n3", 2, 3, 3, mode="threads", vdtype="u1", with_mask=False,
+                    bound=0, seed=seed, footprint=True))
     else:
+        sp.append(S("footprint-A2-n2to3-allops", 2, 2, 3, mode="full", bound=0, thorough=True, seed=seed,
+                    footprint=True))
+        for vd in ("i8", "M8[ns]", "u1"):
+            sp.append(S(f"footprint-{vd}-A0_2-n2to3", 2, 2, 3, mode="full", vdtype=vd, with_mask=False,
+                        bound=0, seed=seed, footprint=True))
         sp.append(S("full-A2-n1to3-D2-allops", 2, 1, 3, mode="full", bound=2, thorough=True, seed=seed))
         sp.append(S("full-A2-n4", 2, 4, 4, mode="full", bound=1, seed=seed))
         sp.append(S("full-A3-n3", 3, 3, 3, mode="full", bound=1, seed=seed))
